@@ -194,6 +194,9 @@ func elemKey(elem types.Type) string { return "Elem_" + typeKey(elem) }
 // element access of a slice backing array (abs = absolute index incl. offset)
 func (vc *VC) loadElem(st *State, arr, abs T, elem types.Type) Val {
 	elem = types.Unalias(elem)
+	if s, ok := leafSort(elem); ok && s != SInt && s != SBool && structOf(elem) == nil {
+		return vc.freshVal(elem, "el") // slices of arrays: contents abstracted
+	}
 	if structOf(elem) != nil {
 		return vc.loadStructAt(st, vc.elemAddr(elem, arr, abs), elem)
 	}
@@ -220,6 +223,9 @@ func (vc *VC) loadElem(st *State, arr, abs T, elem types.Type) Val {
 
 func (vc *VC) storeElem(st *State, arr, abs T, elem types.Type, v Val) {
 	elem = types.Unalias(elem)
+	if s, ok := leafSort(elem); ok && s != SInt && s != SBool && structOf(elem) == nil {
+		return // slices of arrays: contents abstracted
+	}
 	if structOf(elem) != nil {
 		vc.storeStructAt(st, vc.elemAddr(elem, arr, abs), elem, v)
 		return
